@@ -187,3 +187,10 @@ Definition entry_prog (rs : list var) (bodies : list (list stmt)) (k : nat) : pr
 
 (* one verdict per entry point: (safe?, closure check passed?, offending sites) *)
 Definition verdict (p : prog) : bool * bool * list site := (safe p, closed_ok p, bad_sites p).
+
+(* flat encoding printed by the case files: per entry point  [safe; closed; #sites; sites...] *)
+Definition enc (p : prog) : list nat :=
+  let '(s, c, l) := verdict p in [Nat.b2n s; Nat.b2n c; length l] ++ l.
+
+Definition unit_enc (rs : list var) (bodies : list (list stmt)) : list nat :=
+  flat_map (fun k => enc (entry_prog rs bodies k)) (seq 0 (length bodies)).
